@@ -105,6 +105,24 @@ class Sim:
             kw["starttime"] = dt_(win[0])
         if win[1] is not None:
             kw["endtime"] = dt_(win[1])
+        size_arg = lim.get("size")
+        fake_statvfs = None
+        if case.get("negsize") and size_arg is not None and not case.get("cli"):
+            # the size limit given the other way round: "all available space except N bytes".  Available space is what the
+            # file system reports (here: a fixed 10^6 bytes) plus the files the ringbuffer would manage that exist already;
+            # N is chosen so that the resulting limit is the same number of bytes as in the plain form
+            X = 1000000
+            inwin = 0
+            for fi, sz in case["negsize"]:
+                self._touch(os.path.join(self.root, self.files[fi]["rel"]), sz)
+                if self.in_window_key(self.files[fi]["key"], win):
+                    inwin += sz
+            size_arg = -(X + inwin - lim["size"])
+
+            class _SV(object):
+                f_frsize = 1
+                f_bavail = X
+            fake_statvfs = lambda p_: _SV()
         if case.get("cli"):
             # the same ringbuffer configured through the command line (drf ringbuffer PATH -z SIZE -c COUNT -l SECONDS
             # -s START -e END): the object the command builds is taken over just before it would start watching
@@ -132,8 +150,14 @@ class Sim:
                 ringbuffer.DigitalRFRingbuffer.run = real_run
             self.rb = got[0]
         else:
-            self.rb = ringbuffer.DigitalRFRingbuffer(rel if rel else self.root, size=lim.get("size"), count=lim.get("count"),
-                                                     duration=lim.get("duration"), verbose=bool(case.get("verbose")), status_interval=None, **kw)
+            real_statvfs = os.statvfs
+            if fake_statvfs is not None:
+                os.statvfs = fake_statvfs
+            try:
+                self.rb = ringbuffer.DigitalRFRingbuffer(rel if rel else self.root, size=size_arg, count=lim.get("count"),
+                                                         duration=lim.get("duration"), verbose=bool(case.get("verbose")), status_interval=None, **kw)
+            finally:
+                os.statvfs = real_statvfs
         self.evroot = self.rb.path
         self.h = self.rb.event_handler
         self.model = {}  # abs path -> [group(abs), key, size]
@@ -157,8 +181,11 @@ class Sim:
         return (os.path.join(self.evroot, g[0]), g[1])
 
     def in_window(self, i):
-        key = self.files[i % len(self.files)]["key"]
-        return (self.win[0] is None or key >= self.win[0]) and (self.win[1] is None or key <= self.win[1])
+        return self.in_window_key(self.files[i % len(self.files)]["key"], self.win)
+
+    @staticmethod
+    def in_window_key(key, win):
+        return (win[0] is None or key >= win[0]) and (win[1] is None or key <= win[1])
 
     # ---- model updates (sizes are captured with stat() *before* the handler is called, because the
     #      handler may expire the very file it was just told about)
@@ -563,6 +590,11 @@ def _cases(draw, tier):
         case["t0"] = t0
     case["cli"] = draw(st.sampled_from([0, 0, 1, 2, 3]))  # 0: constructed through the API; else through the command line
     case["verbose"] = draw(st.booleans())  # progress reports on stdout: must not change what happens
+    if "size" in limits and not case["cli"] and draw(st.integers(0, 2)) == 0:
+        # (files that exist when the ringbuffer object is made; they are tracked only after a re-scan)
+        case["negsize"] = [[draw(f), draw(sz)] for _ in range(draw(st.integers(0, 3)))]
+        if not case["negsize"]:
+            case["negsize"] = [[0, 1024]]
     if draw(st.integers(0, 3)) == 0:
         keys = sorted({(t0 + s_ // 2) * 1000 + 500 * (s_ % 2) for s_ in range(slots)} | {(t0 + s_) * 1000 for s_ in range(slots)})
         a = max(0, draw(st.sampled_from(keys)) + draw(st.sampled_from([-1, 0, 0, 1])))
